@@ -41,7 +41,7 @@ ASSUMPTIONS = [
     "numpy.linalg.matrix_rank uses the cut-off max(M,N)*eps*sigma_max: exact-rank inputs have float noise ~1e-16, non-zero singular values are >= 1e-7 relative",
     "entanglement_of_formation needs a 2-D input (column vector or matrix): 1-D arrays are not in its domain and are not generated",
     "the l1-norm of coherence is basis dependent; its invariance is checked under local incoherent unitaries (phase x permutation matrices), the only local unitaries that preserve it for every state",
-    "S(k) operator norm and block positivity: certification is one-sided except on operators with a closed form (a*I + b*|psi><psi|, rank one, projectors containing a Schmidt-rank-k vector): upper >= every explicit rank-<=k vector value; lower <= upper; SDP tolerance 1e-5*scale (default cvxpy solver)",
+    "S(k) operator norm and block positivity: certification is one-sided except on operators with a closed form (a*I + b*|psi><psi|, rank one, projectors containing a Schmidt-rank-k vector): upper >= every explicit rank-<=k vector value; lower <= upper; tolerance 1e-3*max(1, operator norm) because cvxpy solves these Hermitian SDPs with SCS (observed deviations from closed forms up to 3e-5)",
     "is_block_positive returns a RuntimeError object (not raised) when undetermined; inputs have margin >= 10% from the boundary, an undetermined answer there is reported",
     "exact Cayley unitaries, exact products and the rank certificates are produced by the harness in Fraction arithmetic (untrusted) and verified exactly by the Lean driver (unitarity, rank certificate, planted norm)",
 ]
@@ -51,7 +51,7 @@ TOL_DEC = 1e-10  # residuals of schmidt_decomposition
 TOL_INV = 1e-8   # invariance under local unitaries
 TOL_SQRT = 1e-6  # concurrence closed form
 TOL_SQRT_INV = 1e-5
-TOL_SDP = 1e-5
+TOL_SDP = 1e-3   # cvxpy picks SCS for the Hermitian SDPs of sk_operator_norm (observed errors up to 3e-5)
 
 
 # ------------------------------------------------------------------------------------------------ exact complex rationals
@@ -925,7 +925,10 @@ def check_sk(ctx, case):
     ctx.case({"fn": "sk_operator_norm", "dA": dA, "dB": dB, "k": k, "variant": variant, "s": case["s"], "a": case["a"], "b": case["b"], "seed": case["seed"]},
              True, f"sk_norm/{dA}x{dB}/k={k}/{variant}")
     scale = float(np.linalg.norm(X, 2))
-    for dform, dim in (("list", [dA, dB]), ("scalar", dA)) + ((("omitted", None),) if dA == dB else ()):
+    forms = (("list", [dA, dB]), ("scalar", dA)) + ((("omitted", None),) if dA == dB else ())
+    if case.get("list_only"):
+        forms = forms[:1]
+    for dform, dim in forms:
         res = _call(sk_operator_norm, X, k) if dim is None else _call(sk_operator_norm, X, k, dim)
         if res[0] != "ok":
             if "Numerical problems" in str(res[1]) or "SolverError" in str(res[1]):
@@ -995,6 +998,13 @@ def generate(ctx):
     rng = ctx.rng
     thorough = ctx.tier == "thorough"
     tasks = list(corpus_cases())
+    for _ in range(8 if thorough else 1):
+        tasks.extend(_round(rng, thorough))
+    return tasks
+
+
+def _round(rng, thorough):
+    tasks = []
     pairs = list(itertools.product([2, 3, 4], [2, 3, 4]))
     reps = 3 if thorough else 1
     for dA, dB in pairs:
@@ -1031,8 +1041,12 @@ def generate(ctx):
         for k in range(1, min(dA, dB) + 1):
             for variant in ("rank1", "shifted", "projector", "random"):
                 tasks.append(make_sk_case(rng, dA, dB, k, variant))
-    if thorough:
-        tasks.append(make_sk_case(rng, 3, 3, 2, "shifted"))
+    if not thorough:
+        # 3x3 is the smallest size where the analytic lower bounds and the symmetric-extension steps are live code
+        for k, variant in ((1, "shifted"), (2, "shifted"), (2, "random")):
+            c = make_sk_case(rng, 3, 3, k, variant)
+            c["list_only"] = True
+            tasks.append(c)
     return tasks
 
 
